@@ -6,8 +6,8 @@ class Row(models.Model):
     grp = models.IntegerField()
     n = models.IntegerField(null=True)
     m = models.IntegerField(null=True)
-    s = models.TextField(null=True)
-    u = models.TextField(null=True)
+    s = models.CharField(max_length=40, null=True)
+    u = models.CharField(max_length=40, null=True)
     b = models.BooleanField(null=True)
     d = models.DateTimeField(null=True)
 
